@@ -142,6 +142,11 @@ def oracle_undoes_permutation(reference, perm, metric, algorithm):
         return Skip('zero row has no direction')
     mask = pa.apply_mapping(reference, perm)
     al = pa.OraclePermutationAlignment(metric, algorithm)
+    if reference.dtype == bool and metric == 'euclidean':
+        try:
+            al(mask, reference)
+        except TypeError:
+            return Skip('boolean masks with the euclidean metric are rejected explicitly (NumPy boolean subtract)')
     out = al(mask, reference)
     if not np.array_equal(out, reference):
         bad = [f for f in range(F) if not np.array_equal(out[:, f], reference[:, f])]
@@ -162,11 +167,38 @@ def oracle_resolves_global_permutation(reference, perm1, metric, algorithm):
         return Skip('zero row has no direction')
     mask = flat_ref[perm1]
     al = pa.OraclePermutationAlignment(metric, algorithm)
+    if reference.dtype == bool and metric == 'euclidean':
+        try:
+            al.calculate_mapping(mask, flat_ref)
+        except TypeError:
+            return Skip('boolean masks with the euclidean metric are rejected explicitly (NumPy boolean subtract)')
     m = al.calculate_mapping(mask, flat_ref)
     if np.asarray(m).shape != (K,):
         return Fail('global-mapping-shape', f'mapping shape {np.asarray(m).shape}')
     if not np.array_equal(mask[m], flat_ref):
         return Fail('global-permutation-not-resolved', f'{metric}/{algorithm}: perm {perm1.tolist()} -> mapping {m.tolist()}')
+
+
+@oracle
+def oracle_reused_aligner(references, perms, metric, algorithm):
+    """ONE aligner object and ONE reference buffer, refilled in place scene after scene: every call must still return the
+    reference of its own scene (an aligner keeps nothing from an earlier call)"""
+    al = pa.OraclePermutationAlignment(metric, algorithm)
+    buf = np.empty_like(references[0])
+    for i, (ref, perm) in enumerate(zip(references, perms)):
+        K, F = perm.shape
+        if K > 1 and _row_separation(ref, metric) < _sep(ref, metric):
+            return Skip('rows closer than the float resolution margin')
+        if metric == 'cos' and np.any(np.linalg.norm(ref.reshape(K, F, -1), axis=-1) == 0):
+            return Skip('zero row has no direction')
+        np.copyto(buf, ref)
+        mask = pa.apply_mapping(buf, perm)
+        out = al(mask, buf)
+        if not np.array_equal(out, ref):
+            return Fail('reused-aligner-reference-not-restored',
+                        f'{metric}/{algorithm}: scene {i} of {len(references)} through one aligner object and one reference '
+                        f'buffer is not restored (a fresh aligner restores it: '
+                        f'{np.array_equal(pa.OraclePermutationAlignment(metric, algorithm)(mask, ref.copy()), ref)})')
 
 
 def search(ctx):
@@ -253,3 +285,27 @@ def search(ctx):
             p1 = np.arange(K)
             p1[near[0]], p1[near[1]] = near[1], near[0]
         ctx.run(oracle_resolves_global_permutation, reference=ref, perm1=p1, metric=metric, algorithm=algo)
+
+    # one-hot masks in the integer / boolean dtypes the module's own doctests use, with many frames (sums of products and of
+    # squared differences must not be accumulated in the mask dtype)
+    for i in range(ctx.n(40, 400)):
+        K = int(rng.integers(2, 5))
+        F = int(rng.choice([1, 3]))
+        T = int(rng.choice([60, 130, 300, 520, 1000]))
+        dt = [np.int8, np.uint8, np.int16, np.int64, bool][int(rng.integers(5))]
+        lab = rng.integers(0, K, size=(F, T))
+        lab[:, :K] = np.arange(K)           # every class occurs
+        ref = np.ascontiguousarray(np.eye(K, dtype=dt)[lab].transpose(2, 0, 1))
+        metric, algo = str(rng.choice(METRICS)), str(rng.choice(ALGOS))
+        ctx.count(f'search-ref-one-hot-{np.dtype(dt).name}')
+        ctx.run(oracle_undoes_permutation, reference=ref, perm=gen.random_perm_field(rng, K, F), metric=metric, algorithm=algo)
+        ctx.run(oracle_resolves_global_permutation, reference=ref, perm1=rng.permutation(K), metric=metric, algorithm=algo)
+    # one aligner object, one reference buffer refilled in place
+    for i in range(ctx.n(40, 400)):
+        K, F, T = int(rng.integers(2, 5)), gen.odd(rng, 1, 7), int(rng.integers(3, 12))
+        n = int(rng.integers(2, 5))
+        refs = [rng.random((K, F, T)) + 0.05 for _ in range(n)]
+        perms = [gen.random_perm_field(rng, K, F) for _ in range(n)]
+        metric, algo = str(rng.choice(METRICS)), str(rng.choice(ALGOS))
+        ctx.count('search-reused-aligner-scenes', n)
+        ctx.run(oracle_reused_aligner, references=refs, perms=perms, metric=metric, algorithm=algo)
